@@ -64,9 +64,11 @@ const IME_NAME: [&str; 3] = ["Disabled", "Enabled", "EnableNext"];
 const RUN_NAME: [&str; 3] = ["Run", "Halt", "Stop"];
 
 /// initial (IF, IE): none, requested-only, enabled-only, requested+enabled, requested and
-/// enabled but disjoint
-const IFIE: [(u8, u8); 5] = [(0x00, 0x00), (0x04, 0x00), (0x00, 0x04), (0x04, 0x04), (0x02, 0x04)];
-const AVAL: [u8; 3] = [0x00, 0x04, 0x1F];
+/// enabled but disjoint (there IE also has the three bits set that select no source: only
+/// IF & IE & 0x1F is a request, and IF reads back with its upper bits high)
+const IFIE: [(u8, u8); 5] = [(0x00, 0x00), (0x04, 0x00), (0x00, 0x04), (0x04, 0x04), (0x02, 0xE4)];
+/// values LDIF / LDIE store: E4 requests / enables the timer and sets the unused upper bits
+const AVAL: [u8; 3] = [0x00, 0xE4, 0x1F];
 
 const QUIET: u32 = 8; // updates after the program is over / after the suspended CPU was poked
 const SUSP_BEFORE_INJECT: u32 = 3;
@@ -770,7 +772,7 @@ pub fn run(tier: &str) -> i32 {
       }
     }
   }
-  let what = "run {Run,Halt,Stop} x IME {Enabled,Disabled,EnableNext} x (IF,IE) {none, requested-only, enabled-only, requested+enabled, requested/enabled disjoint} x A {00,04,1F}";
+  let what = "run {Run,Halt,Stop} x IME {Enabled,Disabled,EnableNext} x (IF,IE) {none, requested-only, enabled-only, requested+enabled, requested/enabled disjoint with IE = E4} x A {00,E4,1F}";
   let (c, states) = stage(&mut rep, "lock-step", 1, max_len, &inits, what);
   let programs = total_cases(max_len);
   let deepest = max_len;
